@@ -1,7 +1,7 @@
 // ---------------------------------------------------------------------------------------------
 // Unit leases — time.
 // (1) SHIM (assumed, trusted): std::time::Instant / std::time::Duration, used as the REAL std types
-//     through assume_specification.  Model: an Instant is a number of nanoseconds on an abstract
+//     through assumed one-line specifications.  Model: an Instant is a number of nanoseconds on an abstract
 //     time line (`instant_ns`); `duration_since` is saturating subtraction (std: "returns a zero
 //     duration if `earlier` is later than `self`"); a std Duration is (whole seconds, sub-second
 //     nanoseconds < 10^9).  `Instant::now()` returns an otherwise unconstrained value marked
